@@ -3,7 +3,7 @@
    (layer A, DESIGN section 4, with the leniencies of 4.5) assigns to those bytes. *)
 From Coq Require Import NArith ZArith List.
 From Desert Require Import Outcome IO IOProofs Types Codec CodecB CodecWf TotalProofs SimProofs
-  TruncProofs PropLemmas.
+  TruncProofs CodecRt2 PropLemmas MiscProofs DenoteProofs.
 Import ListNotations.
 Open Scope N_scope.
 
@@ -69,7 +69,65 @@ Example C06_example_tamper :
   end.
 Proof. vm_compute. split; reflexivity. Qed.
 
+(* WHAT THE ACCEPTED BYTES DENOTE.  Every value the reference decoder returns - from ANY input it
+   accepts, lenient forms included - is a well-formed value of the type (integers in range,
+   chars not surrogates, strings UTF-8, arrays of exactly N, sets and maps without duplicates,
+   valid dates and zones, record and enum shapes) and is its own normal form (transient fields
+   hold their declared defaults): the decoder never hands out a value the type could not hold.
+   defaults_wf E says that the declared defaults are themselves values of their fields' types -
+   in Rust they are typed expressions; the decoder passes them on unchecked. *)
+Theorem C06_decoded_values_are_wellformed : forall f E t s v s',
+  wf_env E = true -> wf_ty E t = true -> defaults_wf E ->
+  bytes_ok (a_cur s) -> strs_ok (a_strs s) ->
+  dec a_ops f E t s = Ok (v, s') ->
+  (exists g0, forall g, (g0 <= g)%nat -> wf_val g E t v = true /\ normv g E t v = v) /\
+  strs_ok (a_strs s') /\ bytes_ok (a_cur s') /\ a_stack s' = a_stack s.
+Proof. exact decA_wf_all. Qed.
+
+(* ... and that value is one the writer can write, its canonical encoding denoting the same
+   value: for declarations without evolution steps (the inputs may still carry headers,
+   unknown-length sequences, over-long var-ints, repeated set elements ...) *)
+Theorem C06_denotes : forall f E t c r k st v st',
+  wf_env E = true -> wf_env_rt E = true -> wf_ty E t = true ->
+  defaults_wf E -> nosteps E ->
+  bytes_ok (c ++ r) -> strs_ok st -> nlen (c ++ r) + nlen st < 2 ^ 31 ->
+  dec a_ops f E t (mkA (c ++ r) k st) = Ok (v, mkA r k st') ->
+  exists g b st2,
+    enc g E t v st = Ok (b, st2) /\
+    forall r2 k2, dec a_ops g E t (mkA (b ++ r2) k2 st) = Ok (v, mkA r2 k2 st2).
+Proof. exact decA_denotes. Qed.
+
+(* for declarations WITH evolution steps the canonical encoding is not bounded by the input (added
+   defaults and headers cost no input bytes), so the size limits of the format cannot be excluded:
+   the writer, from ANY string table, either produces bytes that decode to the same value, or
+   stops on a size limit - never on the value itself (no ill-typed value, no unsupported
+   character, no transient constructor, no fuel) *)
+Theorem C06_denotes_evolved : forall f E t s v s',
+  wf_env E = true -> wf_env_rt E = true -> wf_ty E t = true -> defaults_enc E ->
+  Forall mo_ok_decl E ->
+  bytes_ok (a_cur s) -> strs_ok (a_strs s) ->
+  dec a_ops f E t s = Ok (v, s') ->
+  exists g0, forall g, (g0 <= g)%nat -> forall st,
+    match enc g E t v st with
+    | Ok (b, st2) => forall r2 k2, dec a_ops g E t (mkA (b ++ r2) k2 st) = Ok (v, mkA r2 k2 st2)
+    | Err e => e = ELengthTooLarge
+    | Panic p => p = POverflow
+    | Fuel => False
+    end.
+Proof. exact decA_reencode'. Qed.
+
+(* non-vacuity: Vec<Option<bool>> from [129;0;1;1;7;1;0;0] - over-long marker -1, unknown-length
+   form, bool byte 7 - denotes [Some true; None], whose canonical encoding is [4;1;1;0] *)
+Example C06_example_lenient_input :
+  dec a_ops 10 [] (TSeq KVec (TOption (TPrim PBool))) (mkA [129; 0; 1; 1; 7; 1; 0; 0] [] [])
+    = Ok (VNode 0 [VSome (VN 1); VNone], mkA [] [] []) /\
+  enc 10 [] (TSeq KVec (TOption (TPrim PBool))) (VNode 0 [VSome (VN 1); VNone]) [] = Ok ([4; 1; 1; 0], []).
+Proof. vm_compute. split; reflexivity. Qed.
+
 Print Assumptions C06_sound.
+Print Assumptions C06_decoded_values_are_wellformed.
+Print Assumptions C06_denotes.
+Print Assumptions C06_denotes_evolved.
 Print Assumptions C06_complete.
 Print Assumptions C06_errors_agree.
 Print Assumptions C06_chunk_confinement.
